@@ -6,11 +6,11 @@ import Dashu.Model.Trans.Encl
   `exp / exp_m1 / ln / ln_1p / powi / powf` is checked against a proved enclosure `[lo, hi]` of the
   true real value `v`:
 
-      certified  :⇔  r − ulp < lo  ∧  hi < r + ulp  ∧  (Exact → lo = r = hi)
-      violation  :⇔  hi ≤ r − ulp  ∨  r + ulp ≤ lo  ∨  (Exact ∧ (r < lo ∨ hi < r))
+      certified  :⇔  ((r − ulp < lo ∧ hi < r + ulp) ∨ lo = r = hi)  ∧  (Exact → lo = r = hi)
+      violation  :⇔  ((hi ≤ r − ulp ∨ r + ulp ≤ lo) ∧ (r < lo ∨ hi < r))  ∨  (Exact ∧ (r < lo ∨ hi < r))
       undecided  otherwise (the enclosure still straddles a boundary) → refine with a larger effort.
 
-  `Dashu/Proofs/Trans/Cert.lean`: `certified` implies `|r − v| < ulp ∧ (Exact → r = v)`, `violation`
+  `Dashu/Proofs/Trans/Cert.lean`: `certified` implies `(|r − v| < ulp ∨ r = v) ∧ (Exact → r = v)`, `violation`
   implies its negation — for all inputs.  That the test never ends `undecided`/`violation` on dashu's
   results is NOT proved; it is what the correspondence run explores.
 -/
@@ -35,10 +35,14 @@ def fval (B : Nat) (sig e : Int) : Rat := (sig : Rat) * (B : Rat) ^ e
 def ulp (B : Nat) (sig e : Int) (p : Nat) : Rat :=
   if sig = 0 then 0 else (B : Rat) ^ (e + (digits B sig.natAbs : Int) - (p : Int))
 
-/-- the test on one enclosure -/
+/-- the test on one enclosure `[lo, hi]` of the true value:
+    near     := r − u < lo ∧ hi < r + u      (every point of the enclosure is less than one ulp from r)
+    equal    := lo = r ∧ hi = r              (the true value is r)
+    far      := hi ≤ r − u ∨ r + u ≤ lo      (every point is at least one ulp from r)
+    distinct := r < lo ∨ hi < r              (the true value is not r) -/
 def judge (lo hi r u : Rat) (exact : Bool) : Verdict :=
-  if r - u < lo ∧ hi < r + u ∧ (exact = true → lo = r ∧ hi = r) then .certified
-  else if hi ≤ r - u ∨ r + u ≤ lo ∨ (exact = true ∧ (r < lo ∨ hi < r)) then .violation
+  if ((r - u < lo ∧ hi < r + u) ∨ (lo = r ∧ hi = r)) ∧ (exact = true → lo = r ∧ hi = r) then .certified
+  else if ((hi ≤ r - u ∨ r + u ≤ lo) ∧ (r < lo ∨ hi < r)) ∨ (exact = true ∧ (r < lo ∨ hi < r)) then .violation
   else .undecided
 
 /-- refine the enclosure (effort `n ↦ 2n + 32`) until the test decides or the fuel is used up;
@@ -70,18 +74,31 @@ def powfEncl (x y : Rat) (n : Nat) : Rat × Rat :=
   let a := scaleRat y (lnEncl x (n + magBits y + 2))
   ((expEncl a.1 (n + 2)).1, (expEncl a.2 (n + 2)).2)
 
+/-- enclosure of `w − e · log B` for `w ∈ [a.1, a.2]` -/
+def subLogs (B : Nat) (a : Rat × Rat) (e : Int) (n : Nat) : Rat × Rat :=
+  let l := scaleInt e (lnEncl (B : Rat) (n + e.natAbs.log2 + 3))
+  (a.1 - l.2, a.2 - l.1)
+
 /-- `exp x / B^e = exp (x − e · log B)`: the enclosure of the *scaled* value, compared with the
     significand; used for arguments of large magnitude, where `exp x` itself is astronomically large
     or small but `exp x / B^e` is of the size of the significand -/
 def expScaledEncl (B : Nat) (x : Rat) (e : Int) (n : Nat) : Rat × Rat :=
-  let l := scaleInt e (lnEncl (B : Rat) (n + e.natAbs.log2 + 3))
-  ((expEncl (x - l.2) (n + 2)).1, (expEncl (x - l.1) (n + 2)).2)
+  let w := subLogs B (x, x) e n
+  ((expEncl w.1 (n + 2)).1, (expEncl w.2 (n + 2)).2)
 
 /-- `x^y / B^e = exp (y · log x − e · log B)` for `0 < x` -/
 def powfScaledEncl (B : Nat) (x y : Rat) (e : Int) (n : Nat) : Rat × Rat :=
-  let a := scaleRat y (lnEncl x (n + magBits y + 3))
-  let l := scaleInt e (lnEncl (B : Rat) (n + e.natAbs.log2 + 3))
-  ((expEncl (a.1 - l.2) (n + 2)).1, (expEncl (a.2 - l.1) (n + 2)).2)
+  let w := subLogs B (scaleRat y (lnEncl x (n + magBits y + 3))) e n
+  ((expEncl w.1 (n + 2)).1, (expEncl w.2 (n + 2)).2)
+
+def absQ (q : Rat) : Rat := if 0 ≤ q then q else -q
+
+/-- a `k` with `|r| + |u| < 2^k` -/
+def magBound (r u : Rat) : Nat := (floorNat (absQ r + absQ u) + 1).log2 + 1
+
+/-- the scaled argument `w` is so large that `exp w ≥ 2^k > |r| + u`: the claim is off by far more than
+    an ulp (decided without evaluating the astronomically large `exp w`) -/
+def tooBig (w : Rat × Rat) (r u : Rat) : Bool := decide (((magBound r u : Nat) : Rat) ≤ w.1)
 
 /-- exact power with an integer exponent of either sign -/
 def powiExact (x : Rat) (k : Int) : Rat := x ^ k
@@ -96,7 +113,8 @@ def certExp (B : Nat) (x : Rat) (sig e : Int) (p : Nat) (exact : Bool) (fuel n0 
   refine (expEncl x) (fval B sig e) (ulp B sig e p) exact fuel n0
 
 def certExpScaled (B : Nat) (x : Rat) (sig e : Int) (p : Nat) (exact : Bool) (fuel n0 : Nat) : Verdict × Nat :=
-  refine (expScaledEncl B x e) (sig : Rat) (ulpScaled B sig p) exact fuel n0
+  if tooBig (subLogs B (x, x) e 64) (sig : Rat) (ulpScaled B sig p) then (.violation, 0)
+  else refine (expScaledEncl B x e) (sig : Rat) (ulpScaled B sig p) exact fuel n0
 
 def certExpm1 (B : Nat) (x : Rat) (sig e : Int) (p : Nat) (exact : Bool) (fuel n0 : Nat) : Verdict × Nat :=
   refine (expm1Encl x) (fval B sig e) (ulp B sig e p) exact fuel n0
@@ -114,7 +132,36 @@ def certPowf (B : Nat) (x y : Rat) (sig e : Int) (p : Nat) (exact : Bool) (fuel 
   refine (powfEncl x y) (fval B sig e) (ulp B sig e p) exact fuel n0
 
 def certPowfScaled (B : Nat) (x y : Rat) (sig e : Int) (p : Nat) (exact : Bool) (fuel n0 : Nat) : Verdict × Nat :=
-  refine (powfScaledEncl B x y e) (sig : Rat) (ulpScaled B sig p) exact fuel n0
+  if tooBig (subLogs B (scaleRat y (lnEncl x (64 + magBits y + 3))) e 64) (sig : Rat) (ulpScaled B sig p) then
+    (.violation, 0)
+  else refine (powfScaledEncl B x y e) (sig : Rat) (ulpScaled B sig p) exact fuel n0
+
+/-! exact `powf`: when `x = s^b` with `b = y.den`, the value `x^y = s^(y.num)` is rational and the
+    comparison is exact (interval arithmetic can never decide a value lying exactly on a boundary) -/
+
+/-- bisection for `⌊n^(1/b)⌋` (a witness generator: its output is checked by `s^b = x`, not trusted) -/
+def irootAux (b n : Nat) : Nat → Nat → Nat → Nat
+  | 0, lo, _ => lo
+  | f + 1, lo, hi =>
+    if hi ≤ lo + 1 then lo
+    else
+      let mid := (lo + hi) / 2
+      if mid ^ b ≤ n then irootAux b n f mid hi else irootAux b n f lo mid
+
+def iroot (b n : Nat) : Nat :=
+  if b = 0 then 1 else irootAux b n (n.log2 / b + 3) 0 (2 ^ (n.log2 / b + 1))
+
+/-- a positive rational `s` with `s^b = x`, if the obvious candidate works -/
+def ratRoot (b : Nat) (x : Rat) : Option Rat :=
+  if b = 1 then (if 0 < x then some x else none)
+  else
+    let s := mkRat (iroot b x.num.natAbs) (iroot b x.den)
+    if 0 < s ∧ s ^ b = x then some s else none
+
+/-- requires `0 < s` and `s ^ y.den = x`: then `x^y = s^(y.num)` exactly -/
+def certPowfExact (B : Nat) (s y : Rat) (sig e : Int) (p : Nat) (exact : Bool) : Verdict :=
+  let v := s ^ y.num
+  judge v v (fval B sig e) (ulp B sig e p) exact
 
 /-- exact rational arithmetic decides `powi` outright (never `undecided`) -/
 def certPowi (B : Nat) (x : Rat) (k : Int) (sig e : Int) (p : Nat) (exact : Bool) : Verdict :=
